@@ -11,8 +11,11 @@ import copy, json, os, shutil
 from common import *
 from props import c19
 
-TORN_CLASSES = ["zero", "envelope", "inner", "last"]
-CFG = {"replayIsComplete": True, "atomicWrite": False, "loadIsPerEntry": True, "replayOrderPreserved": True}     # probed per run (see probe)
+# where the write of the (temporary) state file dies: before the first character, after 1, 1/3, 1/2, all but one
+# character, or after everything was written and synced but before the rename
+TORN_CLASSES = ["zero", "one", "third", "half", "last", "complete"]
+CFG = {"replayIsComplete": True, "atomicWrite": False, "loadIsPerEntry": True, "replayOrderPreserved": True, "loadReadsCommitted": True}     # probed per run (see probe)
+TMP_STATS = {}                                            # cut class -> what lay next to the state file at the restart
 STARTUPS = []                                             # (compress, listing pattern b/r, constructor outcome) per restart after damage
 DAMAGE_STATS = {"variants": 0, "listing_positions": {}, "adjacent_pairs": 0, "compressed": 0, "plain": 0}
 
@@ -24,7 +27,7 @@ class ProcessDied(BaseException):
 def cut_length(content, cls):
     inner = content.find('"state": "')
     return {"zero": 0, "envelope": max(1, min(inner, 5)), "inner": (inner + len(content)) // 2 if inner >= 0 else len(content) // 2,
-            "last": len(content) - 1}[cls]
+            "one": 1, "third": len(content) // 3, "half": len(content) // 2, "last": len(content) - 1, "complete": len(content)}[cls]
 
 
 class WriteCrash:
@@ -162,11 +165,26 @@ class Run:
         iid = self.ids.get(mid)
         if iid is None or not os.path.exists(os.path.join(self.path, iid + ".json")):
             return "none"
-        from BPTK_Py import FileAdapter
-        st = FileAdapter(self.compress, self.path).load_instance(iid)
-        if st is None or st.state is None:
+        try:                                              # the committed state FILE (not what a loader makes of the directory)
+            import jsonpickle
+            env = jsonpickle.loads(open(os.path.join(self.path, iid + ".json")).read())
+            state = jsonpickle.loads(env["data"]["state"])
+            sl = state["settings_log"]
+            n = len(sl["steps"]) if self.compress and isinstance(sl, dict) and "steps" in sl else len(sl)
+            return f"ok:step={c19.T(state['step'])};n={n}"
+        except Exception:
             return "torn"
-        return f"ok:step={c19.T(st.state['step'])};n={len(st.state['settings_log'])}"
+
+    def tmp_state(self, mid):
+        iid = self.ids.get(mid)
+        fn = os.path.join(self.path, (iid or "?") + ".json.tmp")
+        return "none" if not os.path.exists(fn) else "empty" if os.path.getsize(fn) == 0 else "nonempty"
+
+    def evict(self):
+        """every instance leaves the memory of the running server (as a timeout does): the next request loads it lazily"""
+        if self.srv is not None and hasattr(self.srv, "app"):
+            for iid in list(self.srv.app._instance_manager._instances):
+                self.srv.app._instance_manager._delete_instance(iid)
 
 
 SERVER_SCRIPT = r'''
@@ -182,7 +200,7 @@ import BPTK_Py.externalstateadapter.externalStateAdapter as esa
 def cut_length(content, cls):
     inner = content.find('"state": "')
     return {"zero": 0, "envelope": max(1, min(inner, 5)), "inner": (inner + len(content)) // 2 if inner >= 0 else len(content) // 2,
-            "last": len(content) - 1}[cls]
+            "one": 1, "third": len(content) // 3, "half": len(content) // 2, "last": len(content) - 1, "complete": len(content)}[cls]
 def slow_open(file, mode="r", *a, **k):            # harness-side hook: a write that is caught half way by kill -9
     f = builtins.open(file, mode, *a, **k)
     if "w" not in mode or not os.path.exists(arm):
@@ -342,10 +360,14 @@ def run_ops(hist, ops, base, tag, runner=None):
                 elif op[0] == "crash":
                     run.crash(); out.append(("none", None))
                 elif op[0] == "torn":
-                    run.torn_step(op[1], op[2], op[3])
+                    fired = run.torn_step(op[1], op[2], op[3])
+                    if fired:
+                        TMP_STATS[op[3] + ":tmp=" + run.tmp_state(op[1])] = TMP_STATS.get(op[3] + ":tmp=" + run.tmp_state(op[1]), 0) + 1
                     run.crash(); out.append(("none", None))
                 elif op[0] == "damage":
                     run.damage(op[1], op[2]); out.append(("none", None))
+                elif op[0] == "evict":
+                    run.evict(); out.append(("none", None))
                 files.append({mid: run.file_state(mid) for mid in run.ids} if run.srv is not None else None)
         finally:
             if run is not None:
@@ -355,7 +377,7 @@ def run_ops(hist, ops, base, tag, runner=None):
 
 def model_lines(hist, ops):
     spec = hist["spec"]
-    req = ["new", f"cfg {int(CFG['replayIsComplete'])} {int(CFG['atomicWrite'])}"]
+    req = ["new", f"cfg {int(CFG['replayIsComplete'])} 1"]
     for op in ops:
         if op[0] == "start":
             req.append(f"start {op[1]} {c19.T(spec['start'])} {c19.T(spec['dt'])} {c19.T(spec['stop'])} {op[1]}")
@@ -365,6 +387,8 @@ def model_lines(hist, ops):
             req.append("crash")
         elif op[0] == "damage":
             req.append(f"damage {op[1]}")
+        elif op[0] == "evict":
+            req.append("crash")                           # for the model: every instance comes from its file again
         else:
             req.append(f"torn {op[1]} {settings_token(op[2])}")
         for mid in range(len(hist["instances"])):
@@ -428,11 +452,16 @@ def variants(hist):
                     out.append((f"damage@{k}:{'+'.join(map(str, ms))}:{cls}",
                                 ops[:k] + [("damage", m, cls) for m in ms] + [("crash",)] + ops[k:]))
     if hist.get("torn", True):
+        # the write of every stepping request dies at every cut of the temporary file; the server restarts (start-up load, or
+        # `lazy`: the instances are loaded by the next request that names them); the client retries the request that was never
+        # answered: everything continues from the last COMPLETED write
         for k, op in enumerate(ops):
             if op[0] == "step":
-                for cls in TORN_CLASSES:
-                    retry = [op] if CFG["atomicWrite"] else []
-                    out.append((f"torn@{k}:{cls}", ops[:k] + [("torn", op[1], op[2], cls)] + retry + ops[k + 1:]))
+                classes = TORN_CLASSES if hist.get("torn") == "all" else [TORN_CLASSES[(k + j) % 6] for j in (0, 2, 5)]
+                for cls in classes:
+                    for lazy in ((False, True) if hist.get("torn") == "all" else (False,)):
+                        out.append((f"torn@{k}:{cls}" + (":lazy" if lazy else ""),
+                                    ops[:k] + [("torn", op[1], op[2], cls)] + ([("evict",)] if lazy else []) + [op] + ops[k + 1:]))
     for ks in hist.get("multi", []):
         vops = list(ops)
         for k in sorted(set(ks), reverse=True):
@@ -484,14 +513,10 @@ def check_variant(hist, name, ops, un_by_step, base, model_out, runner=None):
                 viol.append(("equation-missing", f"{name}: op {oi}: result lacks {sorted(requested(hist, mid) - present(body))}"))
             if kind in ("ok", "stopped"):
                 externalised.add(mid)
-        elif op[0] == "torn" and CFG["atomicWrite"]:
+        elif op[0] == "evict":
+            pass
+        elif op[0] == "torn":                             # (the atomic write is the behaviour of the tree; `atomicWrite` is still probed)
             # the previous state file is intact: the request is lost as a whole (and retried), no instance is
-            lost |= {m for m in range(len(hist["instances"])) if m not in externalised and any(o[0] == "start" and o[1] == m for o in ops[:oi])}
-        elif op[0] == "torn":
-            mid = op[1]
-            counters[mid] = counters.get(mid, 0) + 1
-            lost.add(mid)
-            externalised.discard(mid)
             lost |= {m for m in range(len(hist["instances"])) if m not in externalised and any(o[0] == "start" and o[1] == m for o in ops[:oi])}
         elif op[0] == "damage":
             if op[1] in externalised:
@@ -649,6 +674,20 @@ def boundary_histories(quick):
     return out
 
 
+def tmp_histories(quick):
+    """the write of EVERY step dies at EVERY cut of the temporary file, start-up load and lazy load, both adapter modes"""
+    out = []
+    for compress in (False, True):
+        out.append({"spec": {"start": 1.0, "dt": 0.5, "stop": 10.0}, "compress": compress, "torn": "all", "crash": False,
+                    "instances": [{"sms": ["smA"], "scs": ["a"], "eqs": ["s", "c"], "steps": [copy.deepcopy(C5), {"k": "empty"}, copy.deepcopy(K3)]}]})
+    if not quick:
+        for compress in (False, True):
+            out.append({"spec": {"start": 0.0, "dt": 0.125, "stop": 10.0}, "compress": compress, "torn": "all", "crash": False, "order": [0, 1, 0, 1, 1, 0],
+                        "instances": [{"sms": ["smA"], "scs": ["a"], "eqs": ["s"], "steps": [copy.deepcopy(C5), {"k": "nobody"}, {"k": "empty"}]},
+                                      {"sms": ["smA", "smB"], "scs": ["a", "b"], "eqs": ["g", "s"], "steps": [{"k": "empty"}, copy.deepcopy(K3), {"k": "empty"}]}]})
+    return out
+
+
 WITNESS_LATE = {"spec": {"start": 1.0, "dt": 1.0, "stop": 10.0}, "compress": False, "torn": False,
                 "instances": [{"sms": ["smA"], "scs": ["a"], "eqs": ["s", "c"],
                                "steps": [{"k": "empty"}, {"k": "empty"}, copy.deepcopy(C5)]}]}
@@ -699,9 +738,41 @@ def probe(base):
     facts["atomicWrite"] = probe_atomic(base)
     facts["loadIsPerEntry"] = probe_load(base)
     facts["replayOrderPreserved"] = probe_order(base)
+    facts["loadReadsCommitted"] = probe_tmp(base)
     for k in CFG:
         CFG[k] = facts[k]
     return facts
+
+
+def probe_tmp(base):
+    """next to an intact state file lies a temporary file -- a torn prefix, or a complete newer state that was not renamed:
+    load_instance and load_state return the COMMITTED state (the temporary file is never read), both modes"""
+    import contextlib, io
+    try:
+        from BPTK_Py import FileAdapter
+        from BPTK_Py.externalstateadapter import InstanceState
+        ok = True
+        for compress in (False, True):
+            path = os.path.join(base, "state-tmp")
+            shutil.rmtree(path, ignore_errors=True); os.makedirs(path)
+            mk = lambda n: {"settings_log": {float(k): {} for k in range(n)}, "results_log": {float(k): {"smA": {"a": {"s": {float(k): 1.0}}}} for k in range(n)},
+                            "step": float(n)}
+            with contextlib.redirect_stdout(io.StringIO()):
+                ad = FileAdapter(compress, path)
+                ad.save_instance(InstanceState(mk(3), "t0", "t", {}, 3.0))       # a newer state ...
+                newer = open(os.path.join(path, "t0.json")).read()
+                ad.save_instance(InstanceState(mk(2), "t0", "t", {}, 2.0))       # ... and the committed one
+                for content in (newer[:len(newer) // 2], newer[:1], newer):
+                    with open(os.path.join(path, "t0.json.tmp"), "w") as f:
+                        f.write(content)
+                    one = FileAdapter(compress, path).load_instance("t0")
+                    every = FileAdapter(compress, path).load_state()
+                    ok = ok and one is not None and float(one.state["step"]) == 2.0 and len(one.state["settings_log"]) == 2 \
+                        and [float(e.state["step"]) for e in every if e is not None] == [2.0]
+            shutil.rmtree(path, ignore_errors=True)
+        return ok
+    except Exception:
+        return False
 
 
 def probe_order(base):
@@ -785,17 +856,24 @@ def gen_lean(facts):
            f"leaves the previous state file readable: {facts['atomicWrite']}; load_state treats every listed file on its own (damaged entries "
            f"dropped, every other one decompressed): {facts['loadIsPerEntry']} -/\n"
            f"def cfg : Cfg := {{ replayIsComplete := {b(facts['replayIsComplete'])}, atomicWrite := {b(facts['atomicWrite'])}, "
-           f"loadIsPerEntry := {b(facts['loadIsPerEntry'])}, replayOrderPreserved := {b(facts['replayOrderPreserved'])} }}\n"
+           f"loadIsPerEntry := {b(facts['loadIsPerEntry'])}, replayOrderPreserved := {b(facts['replayOrderPreserved'])}, "
+           f"loadReadsCommitted := {b(facts['loadReadsCommitted'])} }}\n"
+           f"-- a load reads the committed state file, never a temporary file lying next to it (torn or complete): {facts['loadReadsCommitted']}\n"
            f"-- the adapter round trip keeps the order of the logged steps (labels 9.0,10.0 / -2.0,-1.0 / 99.5,100.0 / 0.0..11.0): {facts['replayOrderPreserved']}\n"
            "theorem holds_wave1 {σ ρ : Type} (d : Dyn σ ρ) : C20_full d := C20_full_holds d\n#print axioms holds_wave1\n")
-    if facts["replayIsComplete"] and facts["loadIsPerEntry"] and not facts["replayOrderPreserved"]:
+    rest_good = facts["replayIsComplete"] and facts["loadIsPerEntry"] and facts["replayOrderPreserved"]
+    if rest_good and not facts["loadReadsCommitted"] and facts["atomicWrite"]:
+        out += ("theorem violated : ¬ C20_full_cfg cfg histDyn := C20_witness_temp_first cfg (by decide) (by decide)\n#print axioms violated\n")
+    elif rest_good and not facts["loadReadsCommitted"]:
+        out += "-- the temporary file is read first, but the write is not atomic on this tree: no temporary file is ever left\n"
+    elif facts["replayIsComplete"] and facts["loadIsPerEntry"] and not facts["replayOrderPreserved"]:
         out += "theorem violated : ¬ C20_full_cfg cfg lazyDyn := C20_witness_sorted_keys cfg (by decide)\n#print axioms violated\n"
     elif facts["replayIsComplete"] and not facts["loadIsPerEntry"]:
         out += ("theorem violated {σ ρ : Type} (d : Dyn σ ρ) : ¬ C20_full_cfg cfg d := C20_witness_skipping_load cfg (by decide) d\n"
                 "#print axioms violated\n")
     elif facts["replayIsComplete"]:
         out += "theorem holds {σ ρ : Type} (d : Dyn σ ρ) : C20_full_cfg cfg d := C20_full_of_good cfg (by decide) d\n#print axioms holds\n"
-        if facts["atomicWrite"] and facts["loadIsPerEntry"]:
+        if facts["atomicWrite"] and facts["loadIsPerEntry"] and facts["replayOrderPreserved"] and facts["loadReadsCommitted"]:
             out += ("theorem no_instance_lost_in_write {σ ρ : Type} (d : Dyn σ ρ) : NoLossInWrite cfg d := "
                     "noLoss_of_atomic cfg (by decide) (by decide) d\n#print axioms no_instance_lost_in_write\n")
     else:
@@ -835,7 +913,7 @@ def _run(chk, base):
                        "points; fsync/rename ordering of the file system is trusted", "SD sessions; start/dt on the dyadic or the decimal lattice (see C19)"]
     nmax = 6 if chk.quick else 12
     rng = chk.rng.fork("c20-hist")
-    hists = [WITNESS, WITNESS_LATE] + boundary_histories(chk.quick) + damage_histories(chk.quick) + late_settings_histories(chk.quick) + [gen_history(rng, nmax) for _ in range(5 if chk.quick else 40)]
+    hists = [WITNESS, WITNESS_LATE] + tmp_histories(chk.quick) + boundary_histories(chk.quick) + damage_histories(chk.quick) + late_settings_histories(chk.quick) + [gen_history(rng, nmax) for _ in range(5 if chk.quick else 40)]
     chk.cov["rule"] = (f"per generated history (1-3 instances, <= {nmax} steps, settings / {{}} / no body, both adapter modes): one uninterrupted run, then one "
                        "run per crash point k in 0..N (exhaustive) and one per stepping request x torn-write class {0, inside envelope, inside inner state "
                        "string, length-1} (with an atomic state write the request that died is retried), two runs with crashes at several positions; "
@@ -845,6 +923,7 @@ def _run(chk, base):
     viol_by_key = {}
     total = 0
     del STARTUPS[:]
+    TMP_STATS.clear()
     DAMAGE_STATS.update({"variants": 0, "listing_positions": {}, "adjacent_pairs": 0, "compressed": 0, "plain": 0})
     dist = {"histories": 0, "crash_variants": 0, "torn_variants": 0, "multi_crash_variants": 0, "instances": {1: 0, 2: 0, 3: 0, 4: 0}, "compressed": 0,
             "random_interleavings": 0, "quiet_steps_then_settings": 0, "non_dyadic": 0, "label_text_order_differs": 0}
@@ -888,8 +967,8 @@ def _run(chk, base):
             if time.time() - t_proc > 240:
                 break
             nops = len(base_ops(h))
-            pick = lambda nm: "+" not in nm and (nm.startswith("crash@") or nm.endswith(":inner") or nm.endswith(":zero"))
-            h2 = dict(h, torn=True, multi=[])
+            pick = lambda nm: "+" not in nm and (nm.startswith("crash@") or nm.endswith(":half") or nm.endswith(":zero") or nm.endswith(":complete"))
+            h2 = dict(h, torn="all", multi=[])
             n, viol = run_history(h2, base, runner=ProcRun, pick=pick)
             PROC_STATS["variants"] += n; PROC_STATS["histories"] += 1
             total += n
@@ -905,6 +984,7 @@ def _run(chk, base):
         if bad and not viol_by_key:
             chk.add_finding("correspondence", f"start-up over listing {bad[0][0]!r}: model {bad[0][1]!r}, constructor {bad[0][2]!r}",
                             {"correspondence": "Drive/C20 startup vs BptkServer.__init__", "first": list(bad[0])}, found_input=False)
+    chk.cov["temporary_file_at_restart"] = dict(sorted(TMP_STATS.items()))
     chk.cov["input_distribution"] = dist
     chk.cov["traces_validated_against_impl"] = total
     chk.cov["exhaustive"] = "crash point and torn-write class exhaustive per history"
